@@ -50,23 +50,32 @@ impl Opt {
 
 impl<'a, U: Clone + 'a, E: Clone + 'a, T: Clone + IntoIterator<Item = Result<U, E>> + 'a> Path<T> {
     pub(crate) fn explode(self) -> impl Iterator<Item = Result<Path<U>, E>> + 'a {
+        // stop at the first failing index, like `x as $x | y as $y | ...` would
         Path(Vec::new())
-            .combinations(self.0.into_iter())
+            .combinations(self.0.into_iter(), Result::is_err)
             .map(Path::transpose)
     }
 }
 
 impl<'a, U: Clone + 'a> Path<U> {
-    fn combinations<I, F>(self, mut iter: I) -> BoxIter<'a, Self>
+    /// Return all combinations of path parts.
+    ///
+    /// A combination is not extended beyond a part that contains a `stop` index.
+    fn combinations<I, F>(self, mut iter: I, stop: fn(&U) -> bool) -> BoxIter<'a, Self>
     where
         I: Iterator<Item = (Part<F>, Opt)> + Clone + 'a,
         F: IntoIterator<Item = U> + Clone + 'a,
     {
         if let Some((part, opt)) = iter.next() {
-            let parts = part.into_iter();
+            let parts = part.into_iter(stop);
             flat_map_with(parts, (self, iter), move |part, (mut prev, iter)| {
+                let stopped = part.any(stop);
                 prev.0.push((part, opt));
-                prev.combinations(iter)
+                if stopped {
+                    box_once(prev)
+                } else {
+                    prev.combinations(iter, stop)
+                }
             })
         } else {
             box_once(self)
@@ -160,7 +169,7 @@ impl<'a, V: ValT + 'a> Part<V> {
 }
 
 impl<'a, U: Clone + 'a, F: IntoIterator<Item = U> + Clone + 'a> Part<F> {
-    fn into_iter(self) -> BoxIter<'a, Part<U>> {
+    fn into_iter(self, stop: fn(&U) -> bool) -> BoxIter<'a, Part<U>> {
         use Part::{Index, Range};
         match self {
             Index(i) => Box::new(i.into_iter().map(Index)),
@@ -173,6 +182,9 @@ impl<'a, U: Clone + 'a, F: IntoIterator<Item = U> + Clone + 'a> Part<F> {
             }
             Range(Some(from), Some(upto)) => {
                 Box::new(flat_map_with(from.into_iter(), upto, move |from, upto| {
+                    if stop(&from) {
+                        return box_once(Range(Some(from), None));
+                    }
                     map_with(upto.into_iter(), from, move |upto, from| {
                         Range(Some(from), Some(upto))
                     })
@@ -221,6 +233,14 @@ impl<T, E> Part<Result<T, E>> {
 }
 
 impl<F> Part<F> {
+    /// Does any index of the part satisfy the predicate?
+    fn any(&self, f: impl Fn(&F) -> bool) -> bool {
+        match self {
+            Self::Index(i) => f(i),
+            Self::Range(from, upto) => from.iter().chain(upto.iter()).any(f),
+        }
+    }
+
     fn as_ref(&self) -> Part<&F> {
         match self {
             Self::Index(i) => Part::Index(i),
